@@ -22,3 +22,8 @@ package mpckks
 
 //@ copy RefreshProtocol.ShallowCopy
 //@   copied MaskedLinearTransformationProtocol
+
+//@ copy MaskedLinearTransformationProtocol.WithParams
+//@   copied e2s
+//@   fresh s2e defaultScale mask encoder
+//@   shared noise prec
